@@ -495,3 +495,24 @@ def ex_cssoutput():
 
 
 EXTRACTORS["CssOutputShape"] = ex_cssoutput
+
+
+def ex_runtimehelpers():
+    """the JavaScript text of the helpers the generated code carries (X Y Z P and Q.a Q.b Q.c): `GE/Thm/C06Guard.lean` models them on trees"""
+    src = _read("glass-easel-template-compiler/src/group.rs")
+    out = []
+    for const in ("RUNTIME_ITEMS", "EXTRA_RUNTIME_ITEMS"):
+        m = re.search(r"const\s+" + const + r"\s*:\s*\[\(&'static str, &'static str\);\s*(\d+)\]\s*=\s*\[(.*?)\n\];", src, re.S)
+        if not m:
+            raise core.BrokenTie(f"extract:{const}", "pattern not found")
+        strs = re.findall(r'"((?:\\.|[^"\\])*)"', m.group(2))
+        if len(strs) != 2 * int(m.group(1)):
+            raise core.BrokenTie(f"extract:{const}", "length mismatch")
+        out.append((const, [(strs[i], strs[i + 1].replace('\\"', '"').replace("\\\\", "\\")) for i in range(0, len(strs), 2)]))
+    body = "".join("def %s : List (String × String) := [%s]\n" % (c[0].lower() + "".join(w.capitalize() for w in c.split("_"))[1:],
+                                                                   ", ".join("(%s, %s)" % (lean_str(k), lean_str(v)) for k, v in items)) for c, items in out)
+    return ("/-! GENERATED from /repo/glass-easel-template-compiler/src/group.rs by checklib/extractors.py — do not edit. -/\n"
+            "namespace GE.Extracted\n" + body + "end GE.Extracted\n")
+
+
+EXTRACTORS["RuntimeHelpers"] = ex_runtimehelpers
